@@ -155,7 +155,7 @@ VERUS_UNITS = {
     },
     'runner': {
         'template': 'runner.rs.tpl',
-        'owners': [(r'syscommand_runner$', ['C03', 'C05', 'C12', 'C13', 'C18']), (r'replay_buffered$', ['C03', 'C05', 'C12', 'C18']), (r'kept_of$', ['C12'])],
+        'owners': [(r'syscommand_runner$', ['C03', 'C05', 'C07', 'C12', 'C13', 'C18']), (r'replay_buffered$', ['C03', 'C05', 'C12', 'C18']), (r'kept_of$', ['C12'])],
         'negctl': [
             ('(w_out.counter().0 == 0 && w_out.queue().commands@.len() == 0))', '(w_out.counter().0 == 1 && w_out.queue().commands@.len() == 0))', 'syscommand_runner'),
             ('idx != 0) ==> (w_out.queue().commands@ == w0.queue().commands@.push(', 'idx != 0) ==> (w_out.queue().commands@ == w0.queue().commands@.drop_last().push(', 'syscommand_runner'),
@@ -192,6 +192,14 @@ VERUS_UNITS = {
             ('else if tab.dom().contains(p[0]) { cmds_for(p[0], tab[p[0]]@) + all_cmds(p.skip(1), tab.remove(p[0])) }', 'else if tab.dom().contains(p[0]) { cmds_for(p[0], tab[p[0]]@) + all_cmds(p.skip(1), tab) }', 'ReactCache::schedule_despawn_reactions'),
             # the command must carry the handle itself
             ('ReactionCommand::Despawn { reaction_source: e, reactor: h.sys(), handle: h })', 'ReactionCommand::Despawn { reaction_source: e, reactor: h.sys(), handle: ReactorHandle::Persistent(h.sys()) })', 'ReactCache::schedule_despawn_reactions'),
+        ],
+    },
+    'poll': {
+        'template': 'poll.rs.tpl',
+        'owners': [(r'(schedule_removal_and_despawn_reactors|poll_scope)$', ['C07', 'C01'])],
+        'negctl': [
+            ('*final(world) == flush_eff(with_cache(p.1, p.0)) }),', '*final(world) == with_cache(p.1, p.0) }),', 'schedule_removal_and_despawn_reactors'),
+            ('{ let r = removal_eff(c0, w0); despawn_eff(r.0, r.1) }', '{ let r = despawn_eff(c0, w0); removal_eff(r.0, r.1) }', 'poll_scope'),
         ],
     },
     'dispatch': {
